@@ -7,6 +7,13 @@ BASE = "cd /repo && PYTHON_JSONPATH_VERIF= /venv/bin/python -m pytest -ra -q -p 
 
 # property id -> (engine, technique, level text, level note, design ref)
 CHECKS = {
+    "C01": (
+        "E-PROD",
+        "bounded-exhaustive enumeration of query ASTs x spellings x documents executed on the real engine against an RFC 9535 reference evaluator",
+        "Four complete levels: (A) every single-segment query, child and descendant, over the full selector alphabet (names, indices -5..5 and +-(2^53-1), the full 9x9x6 slice table incl. step 0, wildcard) on every document of Univ(1,3) (thorough: Univ(2,2), 13k documents) plus scalars/strings/index-like keys; (B) every 2- (3-) selector list over a 12-selector alphabet; (C) every 2- (3-) segment pipeline of child/descendant segments on the 1522 documents of Univ(2,2); (D) every spelling (dot/bracket, both quote styles, minimal/\\uXXXX/surrogate-pair escapes, <=1 (2) blanks of each kind at every ABNF S position) of all names over a 25-character alphabet up to length 2 and of the B and C(k=2) ASTs. Results through compile().findall, finditer and env.findall must equal the reference nodelist (typed, ordered, duplicates kept). Exhaustive within these bounds.",
+        "Trusted: mc/ref/rpath.py (RFC 9535 2.3/2.5 written out, self-tested on the RFC example tables and against Python slicing each run); mc/gen/spell.py renders only spellings the RFC ABNF allows. Not covered: nesting deeper than 2-3, integers beyond 2^53, names longer than 3 characters.",
+        "DESIGN.md section 5 C01",
+    ),
     "C12": (
         "E-HIST",
         "explicit-state exploration of all Query operation histories up to a depth bound on real Query objects, lock-step against a list model",
